@@ -42,6 +42,8 @@ def handle (line : String) : String :=
   | ["ORD", mode, bits] => Mods.handleOrd mode bits
   | ["LAZER", mode, bits, kind, speed, ar, cs, hp, od] => Mods.handleLazer mode bits kind speed ar cs hp od
   | ["GCR", mode, bits, kind, speed, clock] => Mods.handleGcr mode bits kind speed clock
+  | ["LZS", mode, bits, tags, hro, lz] => Mods.handleLzs mode bits tags hro lz
+  | ["IMS", how, acrs] => Mods.handleIms how acrs
   | ["SV", variant, sum0, ops] => StrainsWire.handleSV variant sum0 ops
   | ["DV", variant, kind, decay, k, factors, pushes] => StrainsWire.handleDV variant kind decay k factors pushes
   | ["SKILL", kind, fuel, objs] => StrainsWire.handleSKILL kind fuel objs
